@@ -1,5 +1,329 @@
-import CrCube.Model.Subtotals
+/-
+  C15 — share of sum divides by the base-cell total of the row, column or table.
+
+  Model: `Msr.rowShareSum / columnShareSum / totalShareSum` (matrix/measure.py AFTER fix F2) and
+  `StripeMsr.shareSum` (stripe/measure.py).  Spec: `ShareSpec` — ONE formula over the assembled
+  table `Blocks.ext` (= `np.block`): cell / nansum of its row | column | the table over BASE
+  columns | rows | cells.  The unfixed blocks (`*Legacy`) are refuted in `*_legacy_counterexample`.
+-/
 import CrCube.Model.SubtotalMeasures
 import CrCube.Spec.SubtotalSpec
+import CrCube.Lemmas.ValAlgebra
+import CrCube.Lemmas.SubtotalFacts
+import CrCube.Lemmas.Wsum
+import CrCube.Lemmas.ShareFacts
+import Mathlib.Tactic.FieldSimp
+import Mathlib.Tactic.IntervalCases
+import Mathlib.Tactic.NormNum
+import Mathlib.Algebra.BigOperators.Group.List.Basic
+
 namespace CrCube.C15
+open CrCube ShareSpec
+
+/-! ## 1. the share formula, block by block -/
+
+section spec
+variable (v : Nat → Nat → Val) (nr nc : Nat) (x : SubCtx)
+
+/-- **row share**: in all four blocks the model's value is `cell / total of its row over the
+    base columns` of the assembled sums table -/
+theorem row_share_spec (i j k l : Nat) (hi : i < nr) (hj : j < nc) :
+    let E := (Msr.sums v nr nc x).ext
+    (Msr.rowShareSum v nr nc x).body i j = rowShare E nc i j
+      ∧ (Msr.rowShareSum v nr nc x).insCols i l = rowShare E nc i (nc + l)
+      ∧ (Msr.rowShareSum v nr nc x).insRows k j = rowShare E nc (nr + k) j
+      ∧ (Msr.rowShareSum v nr nc x).inter k l = rowShare E nc (nr + k) (nc + l) := by
+  have hb := rowTotal_base v nr nc x i hi
+  have hk := rowTotal_ins v nr nc x k
+  refine ⟨?_, ?_, ?_, ?_⟩
+  · simp only [rowShare, hb]; rw [sums_ext_body v nr nc x i j hi hj]; rfl
+  · simp only [rowShare, hb]; rw [sums_ext_insCols v nr nc x i l hi]; rfl
+  · simp only [rowShare, hk]; rw [sums_ext_insRows v nr nc x k j hj]; rfl
+  · simp only [rowShare, hk]; rw [sums_ext_inter v nr nc x k l]; rfl
+
+/-- **column share** -/
+theorem col_share_spec (i j k l : Nat) (hi : i < nr) (hj : j < nc) :
+    let E := (Msr.sums v nr nc x).ext
+    (Msr.columnShareSum v nr nc x).body i j = colShare E nr i j
+      ∧ (Msr.columnShareSum v nr nc x).insCols i l = colShare E nr i (nc + l)
+      ∧ (Msr.columnShareSum v nr nc x).insRows k j = colShare E nr (nr + k) j
+      ∧ (Msr.columnShareSum v nr nc x).inter k l = colShare E nr (nr + k) (nc + l) := by
+  have hb := colTotal_base v nr nc x j hj
+  have hl := colTotal_ins v nr nc x l
+  refine ⟨?_, ?_, ?_, ?_⟩
+  · simp only [colShare, hb]; rw [sums_ext_body v nr nc x i j hi hj]; rfl
+  · simp only [colShare, hl]; rw [sums_ext_insCols v nr nc x i l hi]; rfl
+  · simp only [colShare, hb]; rw [sums_ext_insRows v nr nc x k j hj]; rfl
+  · simp only [colShare, hl]; rw [sums_ext_inter v nr nc x k l]; rfl
+
+/-- **total share** -/
+theorem total_share_spec (i j k l : Nat) (hi : i < nr) (hj : j < nc) :
+    let E := (Msr.sums v nr nc x).ext
+    (Msr.totalShareSum v nr nc x).body i j = totalShare E nr nc i j
+      ∧ (Msr.totalShareSum v nr nc x).insCols i l = totalShare E nr nc i (nc + l)
+      ∧ (Msr.totalShareSum v nr nc x).insRows k j = totalShare E nr nc (nr + k) j
+      ∧ (Msr.totalShareSum v nr nc x).inter k l = totalShare E nr nc (nr + k) (nc + l) := by
+  have ht := tableTotal_eq v nr nc x
+  refine ⟨?_, ?_, ?_, ?_⟩
+  · simp only [totalShare, ht]; rw [sums_ext_body v nr nc x i j hi hj]; rfl
+  · simp only [totalShare, ht]; rw [sums_ext_insCols v nr nc x i l hi]; rfl
+  · simp only [totalShare, ht]; rw [sums_ext_insRows v nr nc x k j hj]; rfl
+  · simp only [totalShare, ht]; rw [sums_ext_inter v nr nc x k l]; rfl
+
+end spec
+
+/-! ## 2. corollaries: base shares add up to 1; a subtotal's share is the sum of its addends' -/
+
+section corollaries
+variable (v : Nat → Nat → Val) (nr nc : Nat) (x : SubCtx)
+
+/-- **base shares add up to 1** along a row (base row or inserted row alike): if the row's
+    sums over the base columns are finite with non-zero total -/
+theorem row_shares_sum_to_one (E : Nat → Nat → Val) (i : Nat) (q : Nat → Rat)
+    (hfin : ∀ j < nc, E i j = .fin (q j)) (hT : ((List.range nc).map q).sum ≠ 0) :
+    Val.sum (tab1 nc (fun j => rowShare E nc i j)) = .fin 1 := by
+  have hrow : tab1 nc (fun j => E i j) = ((List.range nc).map q).map Val.fin := by
+    unfold tab1; rw [List.map_map]
+    exact List.map_congr_left (fun j hj => hfin j (List.mem_range.mp hj))
+  have hL : ∀ C : Val, tab1 nc (fun j => E i j / C)
+      = ((List.range nc).map q).map (fun r => Val.fin r / C) := by
+    intro C
+    unfold tab1; rw [List.map_map]
+    exact List.map_congr_left (fun j hj => by rw [hfin j (List.mem_range.mp hj)]; rfl)
+  unfold rowShare rowTotal
+  rw [hrow, hL]
+  exact shares_sum_one_list _ hT
+
+/-- along a column -/
+theorem col_shares_sum_to_one (E : Nat → Nat → Val) (j : Nat) (q : Nat → Rat)
+    (hfin : ∀ i < nr, E i j = .fin (q i)) (hT : ((List.range nr).map q).sum ≠ 0) :
+    Val.sum (tab1 nr (fun i => colShare E nr i j)) = .fin 1 := by
+  have hcol : tab1 nr (fun i => E i j) = ((List.range nr).map q).map Val.fin := by
+    unfold tab1; rw [List.map_map]
+    exact List.map_congr_left (fun i hi => hfin i (List.mem_range.mp hi))
+  have hL : ∀ C : Val, tab1 nr (fun i => E i j / C)
+      = ((List.range nr).map q).map (fun r => Val.fin r / C) := by
+    intro C
+    unfold tab1; rw [List.map_map]
+    exact List.map_congr_left (fun i hi => by rw [hfin i (List.mem_range.mp hi)]; rfl)
+  unfold colShare colTotal
+  rw [hcol, hL]
+  exact shares_sum_one_list _ hT
+
+/-- over the whole table -/
+theorem total_shares_sum_to_one (E : Nat → Nat → Val) (q : Nat → Nat → Rat)
+    (hfin : ∀ i < nr, ∀ j < nc, E i j = .fin (q i j)) (hT : ((tab2 nr nc q).flatten).sum ≠ 0) :
+    Val.sum ((tab2 nr nc (fun i j => totalShare E nr nc i j)).flatten) = .fin 1 := by
+  have hG : ∀ g : Rat → Val, ∀ F : Nat → Nat → Val, (∀ i < nr, ∀ j < nc, F i j = g (q i j)) →
+      (tab2 nr nc F).flatten = ((tab2 nr nc q).flatten).map g := by
+    intro g F hF
+    rw [List.map_flatten]
+    congr 1
+    unfold tab2
+    rw [List.map_map]
+    apply List.map_congr_left
+    intro i hi
+    rw [Function.comp_apply, List.map_map]
+    exact List.map_congr_left (fun j hj => hF i (List.mem_range.mp hi) j (List.mem_range.mp hj))
+  have hE := hG Val.fin E hfin
+  unfold totalShare tableTotal
+  rw [hE]
+  rw [hG (fun r => Val.fin r / Val.nansum (((tab2 nr nc q).flatten).map Val.fin))
+        (fun i j => E i j / Val.nansum (((tab2 nr nc q).flatten).map Val.fin))
+        (fun i hi j hj => by rw [hfin i hi j hj])]
+  exact shares_sum_one_list _ hT
+
+/-- **the column share of a row subtotal is the sum of its addends' column shares**
+    (subtotal without subtrahends; the column's base sums finite with non-zero total) -/
+theorem col_share_additive (k j : Nat) (q : Nat → Rat)
+    (hnd : (subAt x.rowSubs k).isDiff = false)
+    (hA : ∀ a ∈ (subAt x.rowSubs k).addendIdxs, a < nr)
+    (hfin : ∀ i < nr, v i j = .fin (q i)) (hT : ((List.range nr).map q).sum ≠ 0) :
+    (Msr.columnShareSum v nr nc x).insRows k j
+      = Val.sum ((subAt x.rowSubs k).addendIdxs.map (fun a => (Msr.columnShareSum v nr nc x).body a j)) := by
+  have hsub : (subAt x.rowSubs k).subtrahendIdxs = [] := by
+    unfold Subtotal.isDiff at hnd
+    simpa using hnd
+  have htot : nansumCol nr v j = .fin (((List.range nr).map q).sum) := by
+    unfold nansumCol tab1
+    rw [← nansum_fin, List.map_map]
+    congr 1
+    exact List.map_congr_left (fun i hi => hfin i (List.mem_range.mp hi))
+  have hnum : sumAt (subAt x.rowSubs k).addendIdxs (fun i => v i j)
+      = .fin (((subAt x.rowSubs k).addendIdxs.map q).sum) :=
+    sumAt_fin_of _ _ q (fun a ha => hfin a (hA a ha))
+  simp only [Msr.columnShareSum, Msr.sums, SumSub.blocks, SumSub.row, hnd, Bool.and_false, Bool.false_eq_true,
+    if_false, hsub, sumAt_nil, Val.sub_fin0, htot, hnum]
+  rw [fin_div_fin _ _ hT]
+  have : (subAt x.rowSubs k).addendIdxs.map (fun a => v a j / Val.fin ((List.range nr).map q).sum)
+      = ((subAt x.rowSubs k).addendIdxs.map (fun a => q a / ((List.range nr).map q).sum)).map Val.fin := by
+    rw [List.map_map]
+    exact List.map_congr_left (fun a ha => by simp [hfin a (hA a ha), fin_div_fin _ _ hT])
+  rw [this, Val.sum_fin, list_sum_div]
+
+/-- symmetric: the row share of a column subtotal is the sum of its addends' row shares -/
+theorem row_share_additive (i l : Nat) (q : Nat → Rat)
+    (hnd : (subAt x.colSubs l).isDiff = false)
+    (hA : ∀ a ∈ (subAt x.colSubs l).addendIdxs, a < nc)
+    (hfin : ∀ j < nc, v i j = .fin (q j)) (hT : ((List.range nc).map q).sum ≠ 0) :
+    (Msr.rowShareSum v nr nc x).insCols i l
+      = Val.sum ((subAt x.colSubs l).addendIdxs.map (fun a => (Msr.rowShareSum v nr nc x).body i a)) := by
+  have hsub : (subAt x.colSubs l).subtrahendIdxs = [] := by
+    unfold Subtotal.isDiff at hnd
+    simpa using hnd
+  have htot : nansumRow nc v i = .fin (((List.range nc).map q).sum) := by
+    unfold nansumRow tab1
+    rw [← nansum_fin, List.map_map]
+    congr 1
+    exact List.map_congr_left (fun j hj => hfin j (List.mem_range.mp hj))
+  have hnum : sumAt (subAt x.colSubs l).addendIdxs (fun j => v i j)
+      = .fin (((subAt x.colSubs l).addendIdxs.map q).sum) :=
+    sumAt_fin_of _ _ q (fun a ha => hfin a (hA a ha))
+  simp only [Msr.rowShareSum, Msr.sums, SumSub.blocks, SumSub.col, hnd, Bool.and_false, Bool.false_eq_true,
+    if_false, hsub, sumAt_nil, Val.sub_fin0, htot, hnum]
+  rw [fin_div_fin _ _ hT]
+  have : (subAt x.colSubs l).addendIdxs.map (fun a => v i a / Val.fin ((List.range nc).map q).sum)
+      = ((subAt x.colSubs l).addendIdxs.map (fun a => q a / ((List.range nc).map q).sum)).map Val.fin := by
+    rw [List.map_map]
+    exact List.map_congr_left (fun a ha => by simp [hfin a (hA a ha), fin_div_fin _ _ hT])
+  rw [this, Val.sum_fin, list_sum_div]
+
+/-- …and for total shares (row subtotal; the addend cells finite, table total `T` finite ≠ 0) -/
+theorem total_share_additive (k j : Nat) (q : Nat → Rat) (T : Rat)
+    (hnd : (subAt x.rowSubs k).isDiff = false)
+    (hfin : ∀ a ∈ (subAt x.rowSubs k).addendIdxs, v a j = .fin (q a))
+    (htot : nansumAll nr nc v = .fin T) (hT : T ≠ 0) :
+    (Msr.totalShareSum v nr nc x).insRows k j
+      = Val.sum ((subAt x.rowSubs k).addendIdxs.map (fun a => (Msr.totalShareSum v nr nc x).body a j)) := by
+  have hsub : (subAt x.rowSubs k).subtrahendIdxs = [] := by
+    unfold Subtotal.isDiff at hnd
+    simpa using hnd
+  have hnum : sumAt (subAt x.rowSubs k).addendIdxs (fun i => v i j)
+      = .fin (((subAt x.rowSubs k).addendIdxs.map q).sum) := sumAt_fin_of _ _ q hfin
+  simp only [Msr.totalShareSum, Msr.sums, SumSub.blocks, SumSub.row, hnd, Bool.and_false, Bool.false_eq_true,
+    if_false, hsub, sumAt_nil, Val.sub_fin0, htot, hnum]
+  rw [fin_div_fin _ _ hT]
+  have : (subAt x.rowSubs k).addendIdxs.map (fun a => v a j / Val.fin T)
+      = ((subAt x.rowSubs k).addendIdxs.map (fun a => q a / T)).map Val.fin := by
+    rw [List.map_map]
+    exact List.map_congr_left (fun a ha => by simp [hfin a ha, fin_div_fin _ _ hT])
+  rw [this, Val.sum_fin, list_sum_div]
+
+end corollaries
+
+/-! ## 3. strand -/
+
+/-- base rows of a strand: `sum / total over the base rows` -/
+theorem strand_share_base (v : Nat → Val) (n : Nat) (subs : List Subtotal) (i : Nat) (hi : i < n) :
+    (StripeMsr.shareSum v n subs).base i = strandShare (strandExt v n subs) n i := by
+  have : tab1 n (strandExt v n subs) = tab1 n v :=
+    tab1_congr n _ _ (fun j hj => by simp [strandExt, hj])
+  simp [StripeMsr.shareSum, strandShare, this, strandExt, hi]
+
+/-- subtotal rows of a strand (sums AND differences): the library adds / subtracts the addends'
+    shares; with finite sums and a non-zero total that is `subtotal sum / total` -/
+theorem strand_share_subtotal (v : Nat → Val) (n : Nat) (subs : List Subtotal) (k : Nat) (q : Nat → Rat)
+    (hfin : ∀ i < n, v i = .fin (q i)) (hT : ((List.range n).map q).sum ≠ 0)
+    (hA : ∀ a ∈ (subAt subs k).addendIdxs, a < n) (hB : ∀ a ∈ (subAt subs k).subtrahendIdxs, a < n) :
+    (StripeMsr.shareSum v n subs).subs k = strandShare (strandExt v n subs) n (n + k) := by
+  have hbase : tab1 n (strandExt v n subs) = tab1 n v :=
+    tab1_congr n _ _ (fun j hj => by simp [strandExt, hj])
+  have htot : Val.nansum (tab1 n v) = .fin (((List.range n).map q).sum) := by
+    unfold tab1
+    rw [← nansum_fin, List.map_map]
+    congr 1
+    exact List.map_congr_left (fun i hi => hfin i (List.mem_range.mp hi))
+  set T := ((List.range n).map q).sum with hTdef
+  have hshare : ∀ (L : List Nat), (∀ a ∈ L, a < n) →
+      sumAt L (fun i => v i / Val.fin T) = .fin ((L.map q).sum / T) := by
+    intro L hL
+    rw [sumAt_fin_of L _ (fun a => q a / T) (fun a ha => by rw [hfin a (hL a ha), fin_div_fin _ _ hT])]
+    rw [list_sum_div]
+  simp only [StripeMsr.shareSum, strandShare, hbase, htot, strandExt, Nat.lt_irrefl, Nat.add_sub_cancel_left,
+    Stripe.sumVal, hshare _ hA, hshare _ hB, sumAt_fin_of _ v q (fun a ha => hfin a (hA a ha)),
+    sumAt_fin_of _ v q (fun a ha => hfin a (hB a ha)), Val.sub_fin]
+  have hlt : ¬ (n + k < n) := by omega
+  simp only [hlt, if_false, Val.sub_fin, fin_div_fin _ _ hT]
+  congr 1
+  field_simp
+
+/-- base shares of a strand add up to 1 -/
+theorem strand_shares_sum_to_one (v : Nat → Val) (n : Nat) (subs : List Subtotal) (q : Nat → Rat)
+    (hfin : ∀ i < n, v i = .fin (q i)) (hT : ((List.range n).map q).sum ≠ 0) :
+    Val.sum (tab1 n (StripeMsr.shareSum v n subs).base) = .fin 1 := by
+  have hv : tab1 n v = ((List.range n).map q).map Val.fin := by
+    unfold tab1; rw [List.map_map]
+    exact List.map_congr_left (fun i hi => hfin i (List.mem_range.mp hi))
+  have hL : ∀ C : Val, tab1 n (fun i => v i / C) = ((List.range n).map q).map (fun r => Val.fin r / C) := by
+    intro C
+    unfold tab1; rw [List.map_map]
+    exact List.map_congr_left (fun i hi => by rw [hfin i (List.mem_range.mp hi)]; rfl)
+  simp only [StripeMsr.shareSum]
+  rw [hv, hL]
+  exact shares_sum_one_list _ hT
+
+/-! ## 4. the unfixed blocks (finding F2) are refuted on a 3 × 3 table
+
+  sums `[[1,2,3],[4,5,6],[7,8,9]]`, row subtotal `+r0+r1`, column subtotal `+c1+c2`.  The Spec
+  (and the fixed model) give column share 5/12 for the subtotal row in column 0; the unfixed
+  code divides the inserted row by itself: 1.  Likewise the other four blocks. -/
+
+def f2V : Nat → Nat → Val := fun i j => (FT.ofFlat [3, 3] [1, 2, 3, 4, 5, 6, 7, 8, 9]).get [i, j]
+def f2X : SubCtx := { rowSubs := [⟨[0, 1], []⟩], colSubs := [⟨[1, 2], []⟩] }
+
+theorem column_share_legacy_counterexample :
+    (Msr.columnShareSumLegacy f2V 3 3 f2X).insRows 0 0 = .fin 1
+      ∧ colShare (Msr.sums f2V 3 3 f2X).ext 3 3 0 = .fin (5 / 12)
+      ∧ (Msr.columnShareSumLegacy f2V 3 3 f2X).inter 0 0 = .fin 1
+      ∧ colShare (Msr.sums f2V 3 3 f2X).ext 3 3 3 = .fin (16 / 33) := by
+  decide +kernel
+
+theorem row_share_legacy_counterexample :
+    (Msr.rowShareSumLegacy f2V 3 3 f2X).inter 0 0 = .fin 1
+      ∧ rowShare (Msr.sums f2V 3 3 f2X).ext 3 3 3 = .fin (16 / 21) := by
+  decide +kernel
+
+theorem total_share_legacy_counterexample :
+    (Msr.totalShareSumLegacy f2V 3 3 f2X).insRows 0 0 = .fin (5 / 21)
+      ∧ totalShare (Msr.sums f2V 3 3 f2X).ext 3 3 3 0 = .fin (1 / 9)
+      ∧ (Msr.totalShareSumLegacy f2V 3 3 f2X).inter 0 0 = .fin 1
+      ∧ totalShare (Msr.sums f2V 3 3 f2X).ext 3 3 3 3 = .fin (16 / 45) := by
+  decide +kernel
+
+/-- the seven blocks the unfixed code gets right coincide with the fixed model on every input -/
+theorem legacy_agrees_elsewhere (v : Nat → Nat → Val) (nr nc : Nat) (x : SubCtx) (i j k l : Nat) :
+    (Msr.columnShareSumLegacy v nr nc x).body i j = (Msr.columnShareSum v nr nc x).body i j
+      ∧ (Msr.columnShareSumLegacy v nr nc x).insCols i l = (Msr.columnShareSum v nr nc x).insCols i l
+      ∧ (Msr.rowShareSumLegacy v nr nc x).body i j = (Msr.rowShareSum v nr nc x).body i j
+      ∧ (Msr.rowShareSumLegacy v nr nc x).insCols i l = (Msr.rowShareSum v nr nc x).insCols i l
+      ∧ (Msr.rowShareSumLegacy v nr nc x).insRows k j = (Msr.rowShareSum v nr nc x).insRows k j
+      ∧ (Msr.totalShareSumLegacy v nr nc x).body i j = (Msr.totalShareSum v nr nc x).body i j
+      ∧ (Msr.totalShareSumLegacy v nr nc x).insCols i l = (Msr.totalShareSum v nr nc x).insCols i l :=
+  ⟨rfl, rfl, rfl, rfl, rfl, rfl, rfl⟩
+
+/-! ## 5. non-vacuity and samples -/
+
+/-- hypotheses of `col_share_additive` / `col_shares_sum_to_one` on the 3 × 3 table -/
+example : (subAt f2X.rowSubs 0).isDiff = false ∧ (∀ a ∈ (subAt f2X.rowSubs 0).addendIdxs, a < 3)
+    ∧ (∀ i < 3, f2V i 0 = .fin ((fun i => (3 * i + 1 : Rat)) i))
+    ∧ ((List.range 3).map (fun i => (3 * i + 1 : Rat))).sum ≠ 0 := by
+  refine ⟨by decide, by decide, ?_, by norm_num [List.range_succ]⟩
+  intro i hi
+  interval_cases i <;> decide +kernel
+
+/-- sample: fixed model on the 3 × 3 table (matches the real library after fix F2) -/
+example :
+    (Msr.columnShareSum f2V 3 3 f2X).insRowsL = [[.fin (5 / 12), .fin (7 / 15), .fin (1 / 2)]]
+      ∧ (Msr.columnShareSum f2V 3 3 f2X).interL = [[.fin (16 / 33)]]
+      ∧ (Msr.rowShareSum f2V 3 3 f2X).interL = [[.fin (16 / 21)]]
+      ∧ (Msr.totalShareSum f2V 3 3 f2X).insRowsL = [[.fin (1 / 9), .fin (7 / 45), .fin (1 / 5)]]
+      ∧ (Msr.totalShareSum f2V 3 3 f2X).interL = [[.fin (16 / 45)]] := by
+  decide +kernel
+
+/-- NaN cells are skipped by the totals, and a zero total gives ±∞ / NaN shares -/
+example :
+    let v : Nat → Nat → Val := fun i j => (FT.ofFlat [2, 2] [.nan, .fin 2, .fin 1, .fin (-1)]).get [i, j]
+    (Msr.rowShareSum v 2 2 ⟨[], [], false, false⟩).bodyL = [[.nan, .fin 1], [.pinf, .ninf]] := by
+  decide +kernel
+
 end CrCube.C15
